@@ -402,10 +402,12 @@ def nontrivial(case, impl, spec):
 LEVEL_TEXT = ("Proof (Lean 4), partial: compound unification is sound for the specification model (both inputs are "
               "superselectors of the result; as-is under a stated hypothesis, with refutation), extend keeps the originals "
               "and replace without a match is the identity for every unifier, selector.nest equals rule nesting and "
-              "selector.append equals `&`-suffix nesting on the specification model; complex unification (unify_relbox) is "
-              "modelled and tied to the code by exact agreement only; every law is also evaluated on the implementation "
+              "selector.append equals `&`-suffix nesting on the specification model; complex unification (unify_relbox / "
+              "inner_unify, all 16 relation pairs, any chain length) is sound on the specification model "
+              "(unify_sound_complex, unify_sound_lists; hypothesis: no pseudo-elements in the chains); every law is also evaluated on the implementation "
               "itself in each generated case.")
-LEVEL_NOTE = ("Partial: unify soundness is proved for compound lists and complex-with-compound pairs, not when both sides "
-              "are complex (unify_relbox); pairs with a one-sided pseudo-element are outside the law; nesting/append "
+LEVEL_NOTE = ("Partial: unify soundness is proved for the specification configuration (repaired combine_vital, `>` arm looking "
+              "through siblings); the code as it is keeps strict `>` (open finding C24-super-parent-strict, refuted by "
+              "unify_asis_parent_strict_refuted); pairs with a one-sided pseudo-element are outside the law; nesting/append "
               "models are those of the C19 family.")
 TECHNIQUE = "Lean 4 theorems parametric in the unifier + exact differential correspondence + direct law check on the implementation"
